@@ -181,7 +181,7 @@ def run(ctx):
                 "proper non-empty subset of the singular values; distinct by (matrix, settings)")
     proof_ok = vlib.standard_proof_part(ctx, "props/C16.v", allowed_axioms=(), translators=["opt"])
     code = extracted_code()
-    n1, n2 = ctx.pick(700, 12000), ctx.pick(120, 1500)
+    n1, n2 = ctx.pick(700, 60000), ctx.pick(120, 6000)
     cases = gen_all(ctx.rng, n1, n2)
     results = run_cases(cases, code)
     fails = [i for i, r in enumerate(results) if r["fails"]]
